@@ -1,0 +1,23 @@
+//go:build verif
+
+// Machine-checked contracts of the NeoFSID contract (comment-only; read by the
+// verifier in /verif, ignored by every compiler because of the build tag).
+
+package neofsid
+
+/*@
+module authz
+props C03 C16
+use common core
+dialect neovm
+// Authorisation table (C03): one line per exported method with the witness its documentation requires.
+// Checked by the zero-annotation sweep: on every normal exit that changed state (storage write,
+// notification, state-changing call) the formula holds; `safe` methods never change state.
+// alphabet() = 2/3+1 multisig of the chain committee, cmtaddr() = its majority multisig.
+
+witness Update [C03,C16] : W(cmtaddr())
+witness AddKey [C03]     : W(alphabet())
+witness RemoveKey [C03]  : W(alphabet())
+safe Key [C03]
+safe Version [C03]
+@*/
